@@ -154,6 +154,10 @@ func execDep(vec J, out *Writer) {
 		var viaControl dependency.Dependency
 		cerr := viaControl.UnmarshalControl(text)
 		rec["res_control"] = J{"ok": cerr == nil, "ast": depJ(&viaControl)}
+		// UnmarshalControl into a value that already holds relations (a decoder loop reuses its struct)
+		dirty, _ := dependency.Parse("zzz (>= 9) | yyy, xxx")
+		derr := dirty.UnmarshalControl(text)
+		rec["dirty_control"] = J{"ok": derr == nil, "ast": depJ(dirty)}
 		if p.ok && p.dep != nil {
 			r := p.dep.String()
 			mc, _ := p.dep.MarshalControl()
